@@ -449,6 +449,19 @@ def make_module(I):
         return st.alloc(NdE(shape, [Fraction(1)] * size(shape)))
 
     reg("ones", ones)
+
+    def empty(I, st, shape, dtype=None):
+        # np.empty: uninitialised float array = arbitrary (fresh, unconstrained) real in every cell
+        if dtype is not None and not (isinstance(dtype, BuiltinClass) and dtype.name == "float"):
+            raise Unsupported("np.empty dtype")
+        if isinstance(shape, int):
+            shape = (shape,)
+        shape = tuple(I.iterate(shape, st))
+        if not all(isinstance(s, int) for s in shape):
+            raise Unsupported("np.empty with symbolic shape")
+        return st.alloc(NdE(shape, [I.fresh("real", "uninit") for _ in range(size(shape))]))
+
+    reg("empty", empty)
     reg("dot", lambda I, st, a, b: dot(I, st, a, b))
 
     def elementwise(fn):
